@@ -90,7 +90,8 @@ LTiny == Language("org.verif.tiny",
   << Asset("Ta", NONE, <<>>,
        << Or("s", Ovr(<< Col(F("rs"), St("s")) >>)),
           Def("d", Disabled, Ovr(<< St("s") >>)) >>),
-     Asset("Ua", "Ta", <<>>, << Or("s", Ext(<< Col(F("ls"), St("s")) >>)) >>) >>,
+     \* the second expression reaches the same targets as the first whenever the link goes both ways: parallel edges
+     Asset("Ua", "Ta", <<>>, << Or("s", Ext(<< Col(F("ls"), St("s")), Col(Col(Col(F("ls"), F("rs")), F("ls")), St("s")) >>)) >>) >>,
   << AssocMany("Lk", "Ta", "ls", "rs", "Ta"),
      Assoc("uu", "Ua", "ul", 0, 1, 0, 2, "ur", "Ua") >>)
 
